@@ -38,7 +38,7 @@ def run(ctx):
         "address (listener gone + connections reset + new server), restart with an attempt while down, server gone for good with a second upstream "
         "listed; a BURST of m in {2,8} local connections at once after a FIN/RST cut (idle / mid-transfer; each history x3 quick / x8 thorough, hooks "
         "stagger the interleavings between lock release and stream open): every one served with verified data twice over, exactly ONE new physical "
-        "session (relay count corroborated by the server's accepted-session count) also after one more connection; black-holed carrier on udp, udp with a pre-shared key and dns (thorough: also tcp/ws), judged after the client itself gave up a connection on the dead session; dns server restarted (it has forgotten the session; 100 s without progress on the next connection = never given up). Then the "
+        "session (relay count corroborated by the server's accepted-session count) also after one more connection; the first listed upstream is down at start (session with the second), comes up, then the session is cut by FIN/RST: the next connection must be served by the FIRST upstream again; after a cut and re-connect the connection served by the new session is held for 70 s and used again, and one more is opened (the new session must outlive the remains of the lost one, no further physical session); black-holed carrier on udp, udp with a pre-shared key and dns (thorough: also tcp/ws), judged after the client itself gave up a connection on the dead session; dns server restarted (it has forgotten the session; 100 s without progress on the next connection = never given up). Then the "
         "NEXT local connection must be served by the right server with verified data. Distinct = the whole case descriptor; non-trivial = the "
         "served/closed/stalled outcome was observed and compared with the model.",
         ["loopback sockets stand for the network; a server restart is emulated by shutting the server command down, resetting its connections at the relay "
